@@ -404,11 +404,46 @@ class Extractor:
         body = rsx.text_of(toks, k2 + 1, close_idx).strip()
         if not body.startswith('{'): body = '{ ' + body + ' }'
         v = fd.get('var', 'fit%d' % n)
-        new = ('{ let mut %s = %s; let %s_p = %s %s; let mut %s_res = None; '
+        rty = (': ' + fd['res_type']) if fd.get('res_type') else ''
+        new = ('{ let mut %s = %s; let %s_p = %s %s; let mut %s_res%s = None; '
                'loop { match %s.next() { Some(v_) => { if %s_p(&v_) { %s_res = Some(v_); break; } } None => break, } } %s_res }'
-               % (v, recv, v, fd['closure_header'], body, v, v, v, v, v))
+               % (v, recv, v, fd['closure_header'], body, v, rty, v, v, v, v))
         text = rsx.text_of(toks, 0, recv_lo) + new + rsx.text_of(toks, close_idx + 1, len(toks))
         self.rule('R6')
+        return tokenize(text)
+
+    # ---- R12: RECV.collect() into a Vec -> push loop
+    def desugar_collect(self, toks, cd, fnpath):
+        """the n-th `.collect()` of the function: { let mut V = RECV; let mut V_vec = Vec::new();
+              loop { match V.next() { Some(v_) => { V_vec.push(v_); } None => break, } } V_vec }
+        (what FromIterator for Vec does: push the items in order)"""
+        sg = rsx.sig(toks)
+        hits = [i for i in range(len(sg) - 3) if toks[sg[i]].text == '.' and toks[sg[i + 1]].text == 'collect' and toks[sg[i + 2]].text == '(' and toks[sg[i + 3]].text == ')']
+        n = cd['n']
+        if n < 1 or n > len(hits):
+            raise ExtractError('%s: .collect() #%d does not exist (function has %d)' % (fnpath, n, len(hits)))
+        i = hits[n - 1]
+        j = i - 1
+        depth = 0
+        while j >= 0:
+            t = toks[sg[j]]
+            if t.kind == 'punct' and t.text in rsx.CLOSE: depth += 1
+            elif t.kind == 'punct' and t.text in rsx.OPEN:
+                if depth == 0: break
+                depth -= 1
+            elif depth == 0:
+                if t.kind in ('ident', 'lifetime') and t.text not in ('let', 'match', 'if', 'return', 'in', 'else', 'mut'): pass
+                elif t.kind == 'punct' and t.text in ('.', '::', '?'): pass
+                else: break
+            j -= 1
+        recv_lo = sg[j + 1]
+        recv = rsx.text_of(toks, recv_lo, sg[i]).strip()
+        v = cd.get('var', 'cit%d' % n)
+        ty = cd.get('elem')
+        new = ('{ let mut %s = %s; let mut %s_vec%s = Vec::new(); loop { match %s.next() { Some(v_) => { %s_vec.push(v_); } None => break, } } %s_vec }'
+               % (v, recv, v, (': Vec<%s>' % ty) if ty else '', v, v, v))
+        text = rsx.text_of(toks, 0, recv_lo) + new + rsx.text_of(toks, sg[i + 3] + 1, len(toks))
+        self.rule('R12')
         return tokenize(text)
 
     # ---- R4: for -> loop/match
@@ -499,6 +534,8 @@ class Extractor:
             ftoks = self.apply_rewrite(ftoks, rw, path)
         for fd in sorted((fnspec or {}).get('find', []), key=lambda x: -x['n']):
             ftoks = self.desugar_find(ftoks, fd, path)
+        for cd in sorted((fnspec or {}).get('collect', []), key=lambda x: -x['n']):
+            ftoks = self.desugar_collect(ftoks, cd, path)
         items = split_items(ftoks, 0, len(ftoks))
         if len(items) != 1 or items[0].kind != 'fn':
             raise ExtractError('%s: did not re-parse as one fn after rewriting' % path)
@@ -524,6 +561,9 @@ class Extractor:
         if sp.get('external_body'):
             attrs.append('#[verifier::external_body]')
             rec.external = True
+        elif fitem.body_open >= 0 and (sp.get('ensures') or sp.get('requires') or sp.get('loop')) and not any('spinoff' in a_ for a_ in attrs):
+            # own solver instance per contracted function: lets Verus verify the functions of one module in parallel
+            attrs.append('#[verifier::spinoff_prover]')
 
         if attrs:
             # before the first non-attribute token of the item (after existing attrs is fine too)
